@@ -81,6 +81,9 @@ fn main() {
 }
 
 fn set_rlimit_as(bytes: u64) {
+    if std::env::var("SIMCHECK_NO_RLIMIT").is_ok() {
+        return;
+    }
     unsafe {
         let lim = libc::rlimit { rlim_cur: bytes, rlim_max: bytes };
         libc::setrlimit(libc::RLIMIT_AS, &lim);
